@@ -3,6 +3,7 @@ package main
 // SSA instruction encoding.
 
 import (
+	"hash/fnv"
 	"fmt"
 	"go/constant"
 	"go/token"
@@ -22,7 +23,7 @@ func (fx *FnCtx) val(v ssa.Value) Term {
 	case *ssa.Const:
 		return fx.constTerm(x)
 	case *ssa.Function:
-		return intLit(int64(P.sorts.typeID(types.NewPointer(x.Signature))*1000003 + len(x.Name())))
+		return fnValue(P, x)
 	case *ssa.Global:
 		fx.errf("outside subset: address of global %s used as value in %s", x.Name(), fx.key)
 		return Term{"0", "Int"}
@@ -44,6 +45,14 @@ func (fx *FnCtx) val(v ssa.Value) Term {
 	}
 	fx.errf("internal: no value for %s (%T) in %s", v.Name(), v, fx.key)
 	return Term{"0", fx.P.sorts.sortOf(v.Type())}
+}
+
+// fnValue: the value of a function used as data - distinct functions get distinct values (type id and a hash of
+// the full name)
+func fnValue(P *Prog, x *ssa.Function) Term {
+	h := fnv.New32a()
+	h.Write([]byte(x.String()))
+	return intLit(int64(P.sorts.typeID(types.NewPointer(x.Signature)))*4294967296 + int64(h.Sum32()))
 }
 
 func (fx *FnCtx) constTerm(c *ssa.Const) Term {
